@@ -503,6 +503,43 @@ fn one(gi: usize, kind: usize, text: &str, lex: &str) -> Digest {
                 sec.push(("gen".to_string(), format!("builderr {}", e)));
             }
         }
+        // the same sources by absolute path from the shared directory; the first process does it from a
+        // working directory that is an ancestor of the sources, the others from their own
+        if gi % 3 == 0 {
+            if let Ok(own) = std::env::current_dir() {
+                let shared = own.join("..").join("shared");
+                if let Ok(shared) = shared.canonicalize() {
+                    let (agp, alp) = (shared.join(format!("g{}.y", gi)), shared.join(format!("g{}.l", gi)));
+                    if agp.exists() {
+                        let (agout, alout) = (own.join(format!("g{}_abs_y.rs", gi)), own.join(format!("g{}_abs_l.rs", gi)));
+                        let first = own.file_name().map(|n| n == "p0").unwrap_or(false);
+                        if first {
+                            let _ = std::env::set_current_dir(shared.parent().unwrap_or(&shared));
+                        }
+                        let (agp2, agout2) = (agp.clone(), agout.clone());
+                        let r = CTLexerBuilder::<DefaultLexerTypes<u32>>::new()
+                            .lrpar_config(move |ctp| ctp.yacckind(yk).error_on_conflicts(false).warnings_are_errors(false).show_warnings(false).grammar_path(&agp2).output_path(&agout2))
+                            .lexer_path(&alp)
+                            .output_path(&alout)
+                            .show_warnings(false)
+                            .allow_missing_terms_in_lexer(true)
+                            .allow_missing_tokens_in_parser(true)
+                            .build();
+                        let _ = std::env::set_current_dir(&own);
+                        match r {
+                            Ok(_) => {
+                                let pcs = strip_volatile(&std::fs::read_to_string(&agout).unwrap_or_default());
+                                let lcs = strip_volatile(&std::fs::read_to_string(&alout).unwrap_or_default());
+                                sec.push(("genabs".to_string(), format!("parser len={} fnv={:016x} lexer len={} fnv={:016x}", pcs.len(), fnv(pcs.as_bytes()), lcs.len(), fnv(lcs.as_bytes()))));
+                            }
+                            Err(e) => sec.push(("genabs".to_string(), format!("builderr {}", e))),
+                        }
+                        let _ = std::fs::remove_file(&agout);
+                        let _ = std::fs::remove_file(&alout);
+                    }
+                }
+            }
+        }
         // the lexer builder on its own, with a user-supplied id map in which several names share an id
         // (several lexer rules producing one token): the generated constants must not depend on the map's
         // iteration order
@@ -554,6 +591,16 @@ fn run_children(cases: &[Case], m: usize, tmp: &Path, deadline: Duration) -> Vec
         let mut f = std::fs::File::create(&list).unwrap();
         for c in cases {
             writeln!(f, "{}\t{}\t{}", c.kind, esc(&c.text), esc(&c.lex)).unwrap();
+        }
+    }
+    // the sources once more in a directory all processes share: built from there by ABSOLUTE path, from
+    // processes whose working directories differ (one of them an ancestor of the sources)
+    let shared = tmp.join("shared");
+    std::fs::create_dir_all(&shared).unwrap();
+    for (gi, c) in cases.iter().enumerate() {
+        if c.kind != 4 && gi % 3 == 0 {
+            std::fs::write(shared.join(format!("g{}.y", gi)), &c.text).unwrap();
+            std::fs::write(shared.join(format!("g{}.l", gi)), &c.lex).unwrap();
         }
     }
     let exe = std::env::current_exe().unwrap();
@@ -924,7 +971,7 @@ pub fn run(a: &Args) {
     let _ = std::fs::remove_dir_all(&tmp);
     let deadline = Duration::from_secs(if a.thorough { 900 } else { 150 });
     let outs = run_children(&cases, m, &tmp, deadline);
-    let compared = ["err", "gram", "graph", "table", "tableerr", "conf", "gen", "genl", "panic"];
+    let compared = ["err", "gram", "graph", "table", "tableerr", "conf", "gen", "genl", "genabs", "panic"];
     let mut thread_budget = if a.thorough { 60 } else { 10 };
     for (gi, c) in cases.iter().enumerate() {
         let id = out.id();
